@@ -3,13 +3,11 @@
 patch="$1"; shift
 cd /repo || exit 2
 if ! git diff --quiet; then echo "/repo dirty"; exit 2; fi
-if ! git apply --check "$patch" 2>/dev/null; then
-  if ! git apply --3way --check "$patch" 2>/dev/null; then echo "PATCH DOES NOT APPLY: $patch"; exit 3; fi
-fi
-git apply "$patch" 2>/dev/null || git apply --3way "$patch"
+if ! git apply --check "$patch" 2>/dev/null; then echo "PATCH DOES NOT APPLY: $patch"; exit 3; fi
+git apply "$patch"
 for p in "$@"; do
   out=$(cd /verif && ./check.sh "$p" quick 2>&1); rc=$?
   echo "== $p rc=$rc"
   echo "$out" | grep -E "^FINDING|^VIOLATION|UNDECIDED|^property=" | cut -c1-400
 done
-git -C /repo reset -q; git -C /repo checkout -- . ; git -C /repo status --short | head -3
+git -C /repo reset -q --hard HEAD; git -C /repo status --short | head -3
